@@ -1,5 +1,5 @@
 SPECIFICATION Spec
 CONSTANTS
-  EnvNames = {"A", "B"}
+  EnvNames = {"A", "B", "a"}
 INVARIANT Report
 CHECK_DEADLOCK FALSE
